@@ -18,6 +18,29 @@ from openmdao.utils.indexer import idx_list_to_index_array
 # from openmdao.devtools.debug import DebugDict
 
 
+def _bincount(x, weights, minlength):
+    """
+    Return np.bincount of x with the given weights, which may be complex.
+
+    Parameters
+    ----------
+    x : ndarray
+        Array of non-negative ints.
+    weights : ndarray
+        Weights, same shape as x. May be complex (e.g. under complex step).
+    minlength : int
+        Minimum number of bins.
+
+    Returns
+    -------
+    ndarray
+        The weighted bin counts.
+    """
+    if np.iscomplexobj(weights):
+        return bincount(x, weights.real, minlength) + 1j * bincount(x, weights.imag, minlength)
+    return bincount(x, weights, minlength)
+
+
 class Subjac(object):
     """
     Base class for subjacobians.
@@ -1187,7 +1210,7 @@ class OMCOOSubjac(COOSubjac):
 
         val = self.info['val'] if randgen is None else self.get_rand_val(randgen)
         # bincount allows rows and cols to contain repeated (row, col) pairs.
-        self._res_view += bincount(self.rows, self._in_view[self.cols] * val, minlength=self.nrows)
+        self._res_view += _bincount(self.rows, self._in_view[self.cols] * val, self.nrows)
 
     def _apply_fwd_output(self, d_inputs, d_outputs, d_residuals, randgen=None):
         if self._out_view is None:
@@ -1196,7 +1219,7 @@ class OMCOOSubjac(COOSubjac):
 
         val = self.info['val'] if randgen is None else self.get_rand_val(randgen)
         # bincount allows rows and cols to contain repeated (row, col) pairs.
-        self._res_view += bincount(self.rows, self._out_view[self.cols] * val, minlength=self.nrows)
+        self._res_view += _bincount(self.rows, self._out_view[self.cols] * val, self.nrows)
 
     def _apply_rev_input(self, d_inputs, d_outputs, d_residuals, randgen=None):
         if self._in_view is None:
@@ -1204,8 +1227,8 @@ class OMCOOSubjac(COOSubjac):
             self._res_view = d_residuals.get_slice(self.row_slice)
 
         val = self.info['val'] if randgen is None else self.get_rand_val(randgen)
-        self._in_view += bincount(self.cols, self._res_view[self.rows] * val,
-                                  minlength=self.parent_ncols)
+        self._in_view += _bincount(self.cols, self._res_view[self.rows] * val,
+                                   self.parent_ncols)
 
     def _apply_rev_output(self, d_inputs, d_outputs, d_residuals, randgen=None):
         if self._out_view is None:
@@ -1213,8 +1236,8 @@ class OMCOOSubjac(COOSubjac):
             self._res_view = d_residuals.get_slice(self.row_slice)
 
         val = self.info['val'] if randgen is None else self.get_rand_val(randgen)
-        self._out_view += bincount(self.cols, self._res_view[self.rows] * val,
-                                   minlength=self.parent_ncols)
+        self._out_view += _bincount(self.cols, self._res_view[self.rows] * val,
+                                    self.parent_ncols)
 
 
 class DiagonalSubjac(SparseSubjac):
